@@ -156,6 +156,11 @@ func (g *jsonGen) subtypeDoc() string {
 		`"i":null`, `"j":true`, `"k":{"log":{"version":1}}`, `"l":[[],[{}]]`, `"m":"Feature"`, `"version":"2.0"`,
 		`"accessors":[1]`, `"scenes":[{"nodes":[0]}]`, `"features":[]`, `"features":[{"type":"Feature","geometry":null}]`,
 		`"n":{"a":{"b":{"c":[1,{"d":2}]}}}`, `"o":-1.5e3`,
+		// strings and keys ending in an escaped backslash (the closing quote follows a backslash byte)
+		`"p":"C:\\data\\"`, `"q":"\\"`, `"r":"x\\\\"`, `"s":"\\\""`, `"t\\":1`, `"u":["\\",{"v":"\\"}]`,
+		// siblings nested deeper than any fixed small path buffer
+		`"nest":` + strings.Repeat("[", 24) + strings.Repeat("]", 24), `"deep":` + strings.Repeat(`{"a":`, 20) + "1" + strings.Repeat("}", 20),
+		`"mix":` + strings.Repeat(`[{"b":`, 12) + "null" + strings.Repeat("}]", 12),
 	}
 	n := g.rng.Intn(4)
 	var parts []string
